@@ -2,6 +2,7 @@ package main
 
 import (
 	"fmt"
+	"go/token"
 	"os"
 	"go/types"
 	"sort"
@@ -439,6 +440,11 @@ func cfCalls(sc *Scenario, toks []cfTok, inner func(string, []SV, *symEval, *sym
 // the registered type's UnmarshalCaddyfile on a fresh value and the dispenser of the next segment.
 func cfModules(c *Ctx, sc *Scenario) {
 	ids := moduleIDs(c)
+	if os.Getenv("L4DEBUG") == "cfmod" {
+		for k, v := range ids {
+			fmt.Println("DBG module", k, typeStr(v))
+		}
+	}
 	sc.Redirect = func(callee string, args []SV, ev *symEval, st *symState) (*ssa.Function, []SV, func([]SV, *symState) []SV, bool) {
 		if !strings.HasSuffix(callee, "caddyfile.UnmarshalModule") || len(args) != 2 || args[1].K != "str" || !args[1].Known {
 			return nil, nil, nil, false
@@ -584,7 +590,7 @@ func renderHeap(h map[string]SV, st *symState, v SV) string {
 		if v.K == "ref" && v.Known && v.Nil {
 			return "nil"
 		}
-		if strings.HasPrefix(v.Desc, "new ") {
+		if strings.HasPrefix(v.Desc, "new ") || strings.HasPrefix(v.Desc, "cell:") {
 			// a fresh object: the fields that were assigned
 			var ks []string
 			for k := range h {
@@ -595,7 +601,16 @@ func renderHeap(h map[string]SV, st *symState, v SV) string {
 			sort.Strings(ks)
 			var parts []string
 			for _, k := range ks {
-				parts = append(parts, k[len(v.Desc)+1:]+":"+renderHeap(h, st, h[k]))
+				name := k[len(v.Desc)+1:]
+				if name == "" || !token.IsExported(name) {
+					continue // not part of the configuration (JSON ignores it)
+				}
+				val := renderHeap(h, st, h[k])
+				switch val {
+				case "nil", `""`, "0", "false", "[]":
+					continue // zero values are what an absent option means
+				}
+				parts = append(parts, name+":"+val)
 			}
 			return "{" + strings.Join(parts, " ") + "}"
 		}
@@ -625,11 +640,12 @@ type cfCase struct {
 type cfTable struct {
 	fn     string
 	source string
+	pre    int // tokens the caller has consumed before it hands the dispenser over (0: the usual fresh dispenser)
 	cases  []cfCase
 }
 
 func c15Tables(c *Ctx, r *Report, rule string) {
-	r.rule(rule, "Caddyfile option tables: each unmarshaller, evaluated on concrete token sequences with a model of the dispenser (Next/NextArg/NextBlock/Nesting/Val/RemainingArgs/CountRemainingArgs/NewFromNextSegment as in caddy v2.8.4), stores exactly the configuration its documented syntax denotes and rejects what the syntax does not allow", 200)
+	r.rule(rule, "Caddyfile option tables: each unmarshaller, evaluated on concrete token sequences with a model of the dispenser (Next/NextArg/NextBlock/Nesting/Val/RemainingArgs/CountRemainingArgs/NextSegment/NewFromNextSegment/NewDispenser as in caddy v2.8.4) and of the module registry (caddyfile.UnmarshalModule(d, id) is the UnmarshalCaddyfile of the type registered under id, evaluated in place on a fresh value; JSON encodings are kept as references to the encoded objects), stores exactly the configuration its documented syntax denotes and rejects what the syntax does not allow", 240)
 	for _, tb := range cfTables {
 		fn := c.Fn(tb.fn)
 		if fn == nil {
@@ -649,7 +665,18 @@ func c15Tables(c *Ctx, r *Report, rule string) {
 						return true
 					}
 				}
-				return base.Inline != nil && base.Inline(f)
+				if base.Inline != nil && base.Inline(f) {
+					return true
+				}
+				// the module's Caddyfile helpers, wherever they live (they take the dispenser)
+				if f.Pkg != nil && strings.HasPrefix(f.Pkg.Pkg.Path(), modPath) && f.Parent() == nil {
+					for _, pr := range f.Params {
+						if strings.HasSuffix(typeStr(pr.Type()), "caddyfile.Dispenser") {
+							return true
+						}
+					}
+				}
+				return false
 			}
 			for k, v := range base.Heap {
 				if strings.HasPrefix(k, "global:") {
@@ -659,6 +686,7 @@ func c15Tables(c *Ctx, r *Report, rule string) {
 			zeroFields(sc.Heap, "m", fn.Signature.Recv().Type())
 			cfCalls(sc, cfTokenize(cs.src), base.Call)
 			cfModules(c, sc)
+			sc.Heap["disp#0.cursor"] = symInt(int64(tb.pre - 1))
 			paths, err := evalPaths(fn, sc)
 			if err != nil || len(paths) == 0 {
 				r.bad(rule, tb.fn, key, c.pos(fn.Pos()), fmt.Sprintf("undecided: %v", err))
@@ -948,7 +976,7 @@ var cfTables = []cfTable{
 		},
 	},
 	{
-		fn: "modules/l4proxy.(*Handler).UnmarshalCaddyfile", source: "proxy [<upstreams...>] { health_interval|health_timeout|fail_duration|lb_try_duration|lb_try_interval <duration>; health_port|max_fails|unhealthy_connection_count <int>; proxy_protocol <v1|v2>; upstream [<args...>] [{...}] } (lb_policy is resolved through the module registry: not evaluated)",
+		fn: "modules/l4proxy.(*Handler).UnmarshalCaddyfile", source: "proxy [<upstreams...>] { health_interval|health_timeout|fail_duration|lb_try_duration|lb_try_interval <duration>; health_port|max_fails|unhealthy_connection_count <int>; proxy_protocol <v1|v2>; upstream [<args...>] [{...}] } (lb_policy <name> [<args>] resolved through the module registry)",
 		cases: []cfCase{
 			{"one upstream", "proxy 10.0.0.1:80", map[string]string{"Upstreams": `[{Dial:["10.0.0.1:80"]}]`, "HealthChecks": "nil", "LoadBalancing": "nil", "ProxyProtocol": `""`}},
 			{"two upstreams in order", "proxy a:1 b:2", map[string]string{"Upstreams": `[{Dial:["a:1"]} {Dial:["b:2"]}]`}},
@@ -957,6 +985,11 @@ var cfTables = []cfTable{
 			{"both kinds of health checks", "proxy a:1 {\n max_fails 1\n health_port 81\n}", map[string]string{"HealthChecks": `{Active:{Port:81} Passive:{MaxFails:1}}`}},
 			{"load balancing durations and proxy protocol", "proxy a:1 {\n lb_try_duration 3s\n lb_try_interval 250ms\n proxy_protocol v2\n}", map[string]string{"LoadBalancing": `{TryDuration:3000000000 TryInterval:250000000}`, "ProxyProtocol": `"v2"`}},
 			{"upstream options after shortcut upstreams", "proxy a:1 {\n upstream b:2\n upstream {\n  dial c:3 d:4\n  max_connections 7\n }\n}", map[string]string{"Upstreams": `[{Dial:["a:1"]} {Dial:["b:2"]} {Dial:["c:3" "d:4"] MaxConnections:7}]`}},
+			{"load balancing policy without arguments", "proxy a:1 b:2 {\n lb_policy round_robin\n}", map[string]string{"LoadBalancing": `{SelectionPolicyRaw:RoundRobinSelection{}+policy=round_robin}`}},
+			{"load balancing policy with an argument", "proxy a:1 b:2 {\n lb_policy random_choose 3\n lb_try_duration 1s\n}", map[string]string{"LoadBalancing": `{SelectionPolicyRaw:RandomChoiceSelection{Choose:3}+policy=random_choose TryDuration:1000000000}`}},
+			{"unknown load balancing policy", "proxy a:1 {\n lb_policy fastest\n}", nil},
+			{"lb_policy twice", "proxy a:1 {\n lb_policy first\n lb_policy random\n}", nil},
+			{"lb_policy without a name", "proxy a:1 {\n lb_policy\n}", nil},
 			{"health_interval twice", "proxy a:1 {\n health_interval 1s\n health_interval 2s\n}", nil},
 			{"max_fails twice", "proxy a:1 {\n max_fails 1\n max_fails 2\n}", nil},
 			{"max_fails not a number", "proxy a:1 {\n max_fails many\n}", nil},
@@ -965,6 +998,64 @@ var cfTables = []cfTable{
 			{"proxy_protocol twice", "proxy a:1 {\n proxy_protocol v1\n proxy_protocol v2\n}", nil},
 			{"upstream without address", "proxy {\n upstream {\n  max_connections 1\n }\n}", nil},
 			{"unknown option", "proxy a:1 {\n health_uri /\n}", nil},
+		},
+	},
+	{
+		fn: "layer4.(*Server).UnmarshalCaddyfile", pre: 1, source: "<addresses...> { matching_timeout <duration>; @name <matcher> [<args>] | @name { <matcher> ... }; route [@name...] { <handler> [<args>] ... } }",
+		cases: []cfCase{
+			{"addresses only", ":443 :8443", map[string]string{"Listen": `[":443" ":8443"]`, "Routes": "[]", "MatchingTimeout": "0"}},
+			{"one route with a handler", ":443 {\n route {\n  echo\n }\n}", map[string]string{"Listen": `[":443"]`, "Routes": `[{HandlersRaw:[Handler{}+handler=echo]}]`}},
+			{"named matcher and route", ":443 {\n @s ssh\n route @s {\n  proxy 10.0.0.1:22\n }\n}", map[string]string{"Routes": `[{HandlersRaw:[Handler{Upstreams:[{Dial:["10.0.0.1:22"]}]}+handler=proxy] MatcherSetsRaw:[map["ssh":MatchSSH{}]]}]`}},
+			{"matcher block, two sets on a route, two handlers", ":443 {\n @a {\n  ssh\n  remote_ip 10.0.0.0/8\n }\n @b regexp ^x 4\n route @a @b {\n  throttle {\n   latency 1s\n  }\n  echo\n }\n}", map[string]string{"Routes": `[{HandlersRaw:[Handler{Latency:1000000000}+handler=throttle Handler{}+handler=echo] MatcherSetsRaw:[map["remote_ip":MatchRemoteIP{Ranges:["10.0.0.0/8"]} "ssh":MatchSSH{}] map["regexp":MatchRegexp{Count:4 Pattern:"^x"}]]}]`}},
+			{"two routes keep their order", ":443 {\n @a ssh\n @b xmpp\n route @b {\n  echo\n }\n route @a {\n  proxy a:1\n }\n route {\n  proxy b:2\n }\n}", map[string]string{"Routes": `[{HandlersRaw:[Handler{}+handler=echo] MatcherSetsRaw:[map["xmpp":MatchXMPP{}]]} {HandlersRaw:[Handler{Upstreams:[{Dial:["a:1"]}]}+handler=proxy] MatcherSetsRaw:[map["ssh":MatchSSH{}]]} {HandlersRaw:[Handler{Upstreams:[{Dial:["b:2"]}]}+handler=proxy]}]`}},
+			{"matching timeout", ":443 {\n matching_timeout 5s\n route {\n  echo\n }\n}", map[string]string{"MatchingTimeout": "5000000000"}},
+			{"undefined matcher set", ":443 {\n route @nope {\n  echo\n }\n}", nil},
+			{"duplicate matcher set", ":443 {\n @a ssh\n @a xmpp\n}", nil},
+			{"duplicate matching timeout", ":443 {\n matching_timeout 5s\n matching_timeout 6s\n}", nil},
+			{"matching timeout not a duration", ":443 {\n matching_timeout soon\n}", nil},
+			{"matcher set without a matcher", ":443 {\n @a\n}", nil},
+			{"unknown option", ":443 {\n handle {\n  echo\n }\n}", nil},
+			{"unknown handler", ":443 {\n route {\n  shout\n }\n}", nil},
+			{"unknown matcher", ":443 {\n @a telnet\n}", nil},
+			{"handler with a wrong argument", ":443 {\n route {\n  echo loud\n }\n}", nil},
+		},
+	},
+	{
+		fn: "layer4.(*ListenerWrapper).UnmarshalCaddyfile", source: "layer4 { matching_timeout <duration>; @name <matcher> ...; route [@name...] { <handler> ... } }",
+		cases: []cfCase{
+			{"bare", "layer4", map[string]string{"Routes": "[]", "MatchingTimeout": "0"}},
+			{"route with a matcher and the tls handler chain", "layer4 {\n @p postgres\n route @p {\n  proxy db:5432\n }\n route {\n  echo\n }\n}", map[string]string{"Routes": `[{HandlersRaw:[Handler{Upstreams:[{Dial:["db:5432"]}]}+handler=proxy] MatcherSetsRaw:[map["postgres":MatchPostgres{}]]} {HandlersRaw:[Handler{}+handler=echo]}]`}},
+			{"matching timeout", "layer4 {\n matching_timeout 3s\n}", map[string]string{"MatchingTimeout": "3000000000", "Routes": "[]"}},
+			{"same-line argument", "layer4 :443", nil},
+			{"undefined matcher set", "layer4 {\n route @x {\n  echo\n }\n}", nil},
+		},
+	},
+	{
+		fn: "modules/l4subroute.(*Handler).UnmarshalCaddyfile", source: "subroute { matching_timeout <duration>; @name <matcher> ...; route [@name...] { <handler> ... } }",
+		cases: []cfCase{
+			{"bare", "subroute", map[string]string{"Routes": "[]", "MatchingTimeout": "0"}},
+			{"nested routes", "subroute {\n matching_timeout 2s\n @h regexp ^GET 3\n route @h {\n  proxy web:80\n }\n route {\n  proxy other:1\n }\n}", map[string]string{"MatchingTimeout": "2000000000", "Routes": `[{HandlersRaw:[Handler{Upstreams:[{Dial:["web:80"]}]}+handler=proxy] MatcherSetsRaw:[map["regexp":MatchRegexp{Count:3 Pattern:"^GET"}]]} {HandlersRaw:[Handler{Upstreams:[{Dial:["other:1"]}]}+handler=proxy]}]`}},
+			{"subroute inside a subroute", "subroute {\n route {\n  subroute {\n   route {\n    echo\n   }\n  }\n }\n}", map[string]string{"Routes": `[{HandlersRaw:[Handler{Routes:[{HandlersRaw:[Handler{}+handler=echo]}]}+handler=subroute]}]`}},
+			{"same-line argument", "subroute x", nil},
+			{"unknown option", "subroute {\n routes {\n }\n}", nil},
+		},
+	},
+	{
+		fn: "modules/l4tee.(*Handler).UnmarshalCaddyfile", source: "tee { <handler> [<args>] ... }",
+		cases: []cfCase{
+			{"two branch handlers in order", "tee {\n throttle {\n  latency 1s\n }\n proxy log:9000\n}", map[string]string{"HandlersRaw": `[Handler{Latency:1000000000}+handler=throttle Handler{Upstreams:[{Dial:["log:9000"]}]}+handler=proxy]`}},
+			{"same-line argument", "tee echo", nil},
+			{"unknown handler", "tee {\n shout\n}", nil},
+		},
+	},
+	{
+		fn: "layer4.(*MatchNot).UnmarshalCaddyfile", source: "not <matcher> [<args>] | not { <matcher> [<args>] ... } (one set: the matchers are ANDed)",
+		cases: []cfCase{
+			{"inline matcher", "not ssh", map[string]string{"MatcherSetsRaw": `[map["ssh":MatchSSH{}]]`}},
+			{"inline matcher with arguments", "not remote_ip 10.0.0.0/8 fd00::/8", map[string]string{"MatcherSetsRaw": `[map["remote_ip":MatchRemoteIP{Ranges:["10.0.0.0/8" "fd00::/8"]}]]`}},
+			{"block of two matchers is one set", "not {\n ssh\n remote_ip 10.0.0.0/8\n}", map[string]string{"MatcherSetsRaw": `[map["remote_ip":MatchRemoteIP{Ranges:["10.0.0.0/8"]} "ssh":MatchSSH{}]]`}},
+			{"duplicate matcher", "not {\n ssh\n ssh\n}", nil},
+			{"unknown matcher", "not telnet", nil},
 		},
 	},
 	{
